@@ -33,8 +33,12 @@ package cloudprovider
 //@   ensures Jkind == old(Jkind)[old(Jlen) := C_INCREASE] && Jname == old(Jname)[old(Jlen) := cpID(n)] && Jnum == old(Jnum)[old(Jlen) := delta] && Jok == old(Jok)[old(Jlen) := err == nil]
 
 // DeleteNodes(nodes...): one C_DELNODE event per node asked for, in order.
+// Jerr[k]: the error the cloud call of event k returned
+//@ ghost Jerr [int]iface
 //@ iface cloudprovider.NodeGroup.DeleteNodes(n, nodes) (err)
-//@   modifies Jlen, Jkind, Jname, Jnode, Jok
+//@   modifies Jlen, Jkind, Jname, Jnode, Jok, Jerr
+//@   ensures forall k :: old(Jlen) <= k && k < Jlen ==> Jerr[k] == err
+//@   ensures forall k :: k < old(Jlen) ==> Jerr[k] == old(Jerr)[k]
 //@   ensures Jlen == old(Jlen) + len(nodes)
 //@   ensures forall k :: old(Jlen) <= k && k < Jlen ==> Jkind[k] == C_DELNODE && Jnode[k] == nodes[k - old(Jlen)] && Jname[k] == nodes[k - old(Jlen)].Name && Jok[k] == (err == nil)
 //@   ensures forall k :: k < old(Jlen) ==> Jkind[k] == old(Jkind)[k] && Jname[k] == old(Jname)[k] && Jok[k] == old(Jok)[k] && Jnode[k] == old(Jnode)[k]
@@ -59,4 +63,12 @@ package cloudprovider
 //@ iface cloudprovider.Instance.InstantiationTime(i) (t)
 //@   pure
 //@ iface cloudprovider.Instance.ID(i) (r)
+//@   pure
+
+//@ ghost nBuildFail int
+//@ iface cloudprovider.Builder.Build(b) (cp, err)
+//@   modifies nBuildFail
+//@   ensures err == nil ==> cp != nil && nBuildFail == old(nBuildFail)
+//@   ensures err != nil ==> nBuildFail == old(nBuildFail) + 1
+//@ iface cloudprovider.CloudProvider.Refresh(c) (err)
 //@   pure
